@@ -8,4 +8,4 @@ cp $WT/out/patch.diff $WT/out/demo.py $D/ 2>/dev/null; cp $WT/out/notes.md $D/no
 echo "== demo on changed tree"; (cd /tmp && PYTHONPATH=$WT PYTHONHASHSEED=0 timeout 600 /venv/bin/python -W ignore $D/demo.py > $D/demo_changed.out 2>&1; echo "exit=$?" | tee -a $D/demo_changed.out; tail -3 $D/demo_changed.out | cut -c1-300)
 echo "== demo on unchanged tree"; (cd /tmp && PYTHONPATH=/repo PYTHONHASHSEED=0 timeout 600 /venv/bin/python -W ignore $D/demo.py > $D/demo_unchanged.out 2>&1; echo "exit=$?" | tee -a $D/demo_unchanged.out)
 echo "== suite on changed tree"; /root/scratch/rt.sh $WT | tee $D/suite_changed.out
-echo "== check (quick) against changed tree"; (cd /verif && PUAN_REPO=$WT harness/run.py --property $P --tier quick > $D/check_quick.out 2>&1; echo "exit=$?" | tee -a $D/check_quick.out; grep -a "VIOLATION\|KNOWN\|^\[" $D/check_quick.out | cut -c1-400)
+echo "== check (quick) against changed tree"; (cd /verif && mkdir -p /verif/work/seedrun/evidence && VERIF_WORK=/verif/work/seedrun VERIF_EVIDENCE=/verif/work/seedrun/evidence PUAN_REPO=$WT harness/run.py --property $P --tier quick > $D/check_quick.out 2>&1; echo "exit=$?" | tee -a $D/check_quick.out; grep -a "VIOLATION\|KNOWN\|^\[" $D/check_quick.out | cut -c1-400)
